@@ -13,6 +13,7 @@ EXPLANATION = (
     '(R6, shared with C03.R3) what the handler and the elements emit during an event leaves the event buffer in program order. '
     '(R7) the element vector of a ProcessingStack only ever grows at its end (append keeps the installed order; no swap/insert/remove). '
     "(R8) the plugin-style processing bracket is closed last: nothing of the module runs after the event-end hook on any exit of the event handlers and lifecycle calls. "
+    "(R9) a module's chain is exactly Module::stack(simulation-wide stack), and every site that builds a module hands in that stack or draws it from the configured provider. "
     "Decides these necessary conditions only; not per-history exactly-once counts.")
 ASSUMPTIONS = ["events are dispatched sequentially (one Runtime::dispatch_event at a time), so brackets of one module cannot nest"]
 
